@@ -388,6 +388,7 @@ namespace xsv
         // "current case" for the crash handler
         Violation current;
         bool current_valid = false;
+        unsigned char last_out[16] = { 0 };
 
         void add_violation(const Violation& v, bool replace = true)
         {
